@@ -39,6 +39,7 @@ C_FRAME = "begin/end are exact frame multiples"
 C_TEXT = "every frame: same characters, rows in order, style runs as the reference decoder"
 C_ROWS = "every frame: same row numbers as the reference decoder"
 C_TIME = "changes happen within the transmission window of the triggering word"
+C_DBL = "doubled control codes act once: the stream with every control pair sent twice shows the same sequence of screens"
 
 NDF = Fraction(30)
 DF = Fraction(30000, 1001)
@@ -164,6 +165,11 @@ def gen_row_text(r, room, rich):
       if left < 2:
         break
       units.append(("c", w_midrow(r.randrange(8), r.random() < 0.25)))
+      if left >= 3 and r.random() < 0.2:
+        # two mid-row codes in a row: a colour and italics (italics keeps the colour), or two colours (the second wins)
+        units.append(("c", w_midrow(r.choice((7, 7, r.randrange(7))), r.random() < 0.25)))
+        used += 1
+        left -= 1
       n = r.randint(1, min(left - 1, 5))
       units.append(("t", gen_chars(r, n)))
       used += 1 + n
@@ -315,6 +321,10 @@ def paint_caption(r, pol, st):
   for row in rows:
     st["used"].add(row)
     p, col = gen_pac(r, row)
+    if not pol.clean and r.random() < 0.08:
+      # the screen is erased after the cursor has been moved and before anything is written there
+      p = p + [("c", w_ctrl("EDM"))]
+      st["used"] = {row}
     b = p + gen_row_text(r, 32 - col, pol.rich)
     if len(lines[-1]) > (1 if units else 0) and r.random() < 0.3:
       lines.append(b)
@@ -462,9 +472,28 @@ def make_case(seed, family, idx, max_captions):
       break
   else:
     raise RuntimeError("could not generate an unambiguous stream")
-  text = render(r, pol, flat, gen_start(r, pol.drop))
+  start = gen_start(r, pol.drop)
+  text = render(r, pol, flat, start)
   cfg = CONFIGS[idx % len(CONFIGS)]
+  make_case.last = (pol, flat, start)
   return text, cfg
+
+
+def doubled_variant(seed, family, idx):
+  """the stream of the last make_case with EVERY channel-1 control pair sent twice (only for streams generated without any doubling,
+  other-channel data or padding: the redundant copy must directly follow the original) -> SCC text or None"""
+  pol, flat, start = make_case.last
+  if pol.doubling != "none" or pol.other or pol.padding:
+    return None
+  out = []
+  for gap, ws in flat:
+    w2 = []
+    for (b1, b2, intent) in ws:
+      w2.append((b1, b2, intent))
+      if intent == "ctrl":
+        w2.append((b1, b2, "copy"))
+    out.append((gap, w2))
+  return render(rng(seed, f"c08-dbl/{family}/{idx}"), pol, out, start)
 
 
 # ----------------------------------------------------------------------------------------------------------------------
@@ -1164,6 +1193,42 @@ def evaluate(text, cfg_name):
   return fails, info
 
 
+def screens_of(text, cfg_name):
+  """the sequence of distinct non-empty screens of the document, in time order (times dropped) -> list | exception"""
+  from ttconv.scc.reader import to_model
+  ref = RefRun(text)
+  doc = to_model(text, config_of(cfg_name))
+  run = DocRun(doc, ref.fps)
+  seq = []
+  for fr in run.steps:
+    _, rows = run.screen(fr)
+    sig = tuple(sorted((row, tuple(cells)) for row, cells in rows.items()))
+    if sig and (not seq or seq[-1] != sig):
+      seq.append(sig)
+  return seq
+
+
+def evaluate_doubling(text, text2, cfg_name):
+  """pop-on streams only (the screen changes at EOC / EDM, so the sequence of screens does not depend on when the words of a row arrive)"""
+  try:
+    a, b = screens_of(text, cfg_name), screens_of(text2, cfg_name)
+  except Exception:  # pylint: disable=broad-except
+    return None        # reported by the other contracts
+  if a == b:
+    return None
+  k = next((i for i in range(min(len(a), len(b))) if a[i] != b[i]), min(len(a), len(b)))
+  sa = show_doc(dict(a[k])) if k < len(a) else "no further screen"
+  sb = show_doc(dict(b[k])) if k < len(b) else "no further screen"
+  kind = "rows"
+  if k < len(a) and k < len(b):
+    ra, rb = dict(a[k]), dict(b[k])
+    if sorted(ra) == sorted(rb) and all("".join(c[0] for c in ra[x]) == "".join(c[0] for c in rb[x]) for x in ra):
+      kind = "style"
+    elif sorted(ra) == sorted(rb):
+      kind = "text"
+  return (f"doubling-changes-the-display:{kind}", C_DBL, f"screen {k + 1}: sent once {sa}, every control pair sent twice {sb}", sb, sa)
+
+
 # ----------------------------------------------------------------------------------------------------------------------
 
 FAMILIES = ["pop", "roll", "paint", "mixed"]
@@ -1189,6 +1254,14 @@ def run_chunk(job):
     for (key, contract, summary, observed, required) in fails:
       rec.fail(key, contract, summary, {"scc": text, "config": cfg, "family": family}, observed, required, REPLAYER,
                {"scc": text, "config": cfg})
+    if family == "pop":
+      text2 = doubled_variant(seed, family, idx)
+      if text2 is not None:
+        rec.evaluated(C_DBL, fp, None, nontrivial=info["changes"] > 0)
+        f = evaluate_doubling(text, text2, cfg)
+        if f is not None:
+          rec.fail(f[0], f[1], f[2], {"scc": text, "scc_doubled": text2, "config": cfg, "family": family}, f[3], f[4], "replayers.c08:doubling",
+                   {"scc": text, "scc_doubled": text2, "config": cfg})
   return rec
 
 
